@@ -322,7 +322,9 @@ pub fn systematic_runs(verif_seed: u64) -> Vec<RunSpec> {
     // a second, small set without any common first letters, on which the ORDER of the test cases changes under case
     // folding at the very first character ("Bc" < "ad" < "mn" but "ad" < "bc" < "mn"); in the big set an earlier
     // "Ab" masks that. Used for a third variant of every shape.
-    let order_set: Vec<String> = vec!["Bc".into(), "ad".into(), "Zq".into(), "mn".into(), "Σx".into(), "σw".into()];
+    // Two more members fold to a longer / are longer than their neighbours in bytes ("Ⱥx" is 3 bytes, its lower case 4,
+    // "💩y" 5), so that an order or a buffer that depends on the byte length before folding shows.
+    let order_set: Vec<String> = vec!["Bc".into(), "ad".into(), "Zq".into(), "mn".into(), "Σx".into(), "σw".into(), "\u{23a}x".into(), "\u{1f4a9}y".into()];
     for (si, s) in all_setters().into_iter().enumerate() {
         for (hi, shape) in SHAPES.iter().enumerate() {
             for variant in 0..3u64 {
@@ -738,6 +740,9 @@ pub struct PreemptPair {
     pub victim: Vec<Op>,
     pub intruder: Vec<Op>,
     pub systematic: bool,
+    /// the victim's first `skip_ops` operations are not swept (used for histories whose last operation re-does a
+    /// build: only the visits of the repeated build are of interest)
+    pub skip_ops: usize,
 }
 
 const PREEMPT_ALPHA: [&str; 10] = ["a", "Z", "1", "_", ":", "[", "\u{e9}", " ", "\u{663}", "\u{3b2}"];
@@ -757,7 +762,21 @@ fn preempt_cfgs() -> Vec<Vec<Setter>> {
     ]
 }
 
+/// Every victim history starts with the build of a third, unrelated key (not swept): whatever the library may
+/// remember from one build to the next, every run of the sweep then starts from the same state.
+fn with_neutral_prefix(mut p: PreemptPair) -> PreemptPair {
+    let mut ops = vec![Op::New { slot: 7, cases: vec!["q".to_string()] }, Op::Build { slot: 7 }];
+    p.skip_ops += ops.len();
+    ops.append(&mut p.victim);
+    p.victim = ops;
+    p
+}
+
 pub fn preempt_pairs(verif_seed: u64, tier: &str) -> Vec<PreemptPair> {
+    preempt_pairs_raw(verif_seed, tier).into_iter().map(with_neutral_prefix).collect()
+}
+
+fn preempt_pairs_raw(verif_seed: u64, tier: &str) -> Vec<PreemptPair> {
     let mut out = vec![];
     let cfgs = preempt_cfgs();
     let s = |x: &[&str]| x.iter().map(|t| t.to_string()).collect::<Vec<String>>();
@@ -771,8 +790,31 @@ pub fn preempt_pairs(verif_seed: u64, tier: &str) -> Vec<PreemptPair> {
                     victim: plain_build(s(v), c.clone()),
                     intruder: plain_build(s(i), c.clone()),
                     systematic: true,
+                    skip_ops: 0,
                 });
             }
+        }
+    }
+    // a build repeated on the same builder (where a result remembered from the first one would be used) while the
+    // other client builds something else in the gap: only the repeated build is swept, with as many instruction
+    // counts per visit as the step budget allows
+    for (vi, v) in victims.iter().enumerate() {
+        for (i, c) in [(intruders[0], &cfgs[0]), (intruders[1], &cfgs[1])] {
+            let mut victim = plain_build(s(v), c.clone());
+            victim.push(Op::Build { slot: 0 });
+            let skip = victim.len() - 1;
+            if vi % 2 == 1 {
+                // the repeated build on a clone
+                let n = victim.len();
+                victim[n - 1] = Op::Clone { from: 0, to: 1 };
+                victim.push(Op::Build { slot: 1 });
+            }
+            out.push(PreemptPair {
+                victim,
+                intruder: plain_build(s(i), c.clone()),
+                systematic: true,
+                skip_ops: skip,
+            });
         }
     }
     // seeded part
@@ -798,6 +840,7 @@ pub fn preempt_pairs(verif_seed: u64, tier: &str) -> Vec<PreemptPair> {
             victim: plain_build(victim, cv),
             intruder: plain_build(intruder, ci),
             systematic: false,
+            skip_ops: 0,
         });
     }
     out
